@@ -29,6 +29,9 @@ for pos in ("boundary","inside","before","after"):
 fixed("C17","C17/nsec3-cover/normal/equals-owner","cf9dea5","NSEC3.Cover returned true for a name whose hash equals the owner hash of a non-wrapping interval")
 fixed("C17","C17/nsec3-hash-non-ascii-folded","bae68b8","HashName lower-cased non-ASCII letters (strings.ToLower), so names differing in such a letter hashed alike")
 fixed("C17","C17/nsec3-cover/normal/inside-or-outside/lower-case-next-hash","92ce231","NSEC3.Cover compared a lower-case NextDomain bytewise with upper-cased hashes, ordering the interval by ASCII case instead of by value")
+# ---- C18
+fixed("C18","C18/sign-fails/compressible/ED25519","b50b305","SIG(0) Sign returned ErrBuf whenever compression saved more octets than the SIG record needs: its buffer was sized from the compressed length but PackBuffer needs the uncompressed one")
+fixed("C18","C18/own-signature-rejected/additional-254..512/ED25519","a2f04f8","SIG(0) Verify hashed byte((adc-1)<<8) (always 0) instead of the high octet of the original ARCOUNT, so messages with 256+ additional records signed by Sign did not verify")
 # ---- C20
 known("C20","C20/not-reflexive/OPT","OPT.isDuplicate is hard-wired to false: an OPT record is never a duplicate of itself or of its copy")
 known("C20","C20/not-reflexive/XPRIV","PrivateRR.isDuplicate is hard-wired to false: a user-registered private record is never a duplicate of itself or of its copy")
